@@ -243,6 +243,7 @@ type world struct {
 	stop    chan struct{}
 	pending map[string]chan struct{}
 	infos   map[*clusters.ClusterInfo]bool
+	epSeen  map[*clusters.EndpointInfo]string // every endpoint object ever seen in a cluster (url), for step "poke"
 }
 
 func (w *world) add(e ev) {
@@ -346,9 +347,43 @@ func (w *world) remember() {
 		if ci, ok := w.ctrl.Get(l.Items[i].Name); ok {
 			w.mu.Lock()
 			w.infos[ci] = true
+			if w.epSeen == nil {
+				w.epSeen = map[*clusters.EndpointInfo]string{}
+			}
+			ci.Endpoints.Range(func(name string, info *clusters.EndpointInfo) bool {
+				w.epSeen[info] = name
+				return true
+			})
 			w.mu.Unlock()
 		}
 	}
+}
+
+// poke: TriggerHealthCheck (what the dispatcher does after a proxy error) on every endpoint object the gateway has ever
+// had that is now disabled or no longer part of its cluster; a health-check loop that is still alive answers with a probe
+func (w *world) poke() {
+	w.remember()
+	w.mu.Lock()
+	var stale []*clusters.EndpointInfo
+	for e, url := range w.epSeen {
+		live := false
+		for ci := range w.infos {
+			if cur, ok := ci.Endpoints.Load(url); ok && cur == e && !e.IstDisabled() {
+				if cur2, still := w.ctrl.Get(ci.Cluster); still && cur2 == ci {
+					live = true
+				}
+			}
+		}
+		if !live {
+			stale = append(stale, e)
+		}
+	}
+	w.mu.Unlock()
+	for _, e := range stale {
+		e.TriggerHealthCheck()
+	}
+	time.Sleep(30 * time.Millisecond)
+	w.add(ev{"k": "poked", "n": len(stale)})
 }
 
 func (w *world) doRequest(s step) {
@@ -688,6 +723,10 @@ func runScenario(t *testing.T, sc scenario) []ev {
 					w.add(ev{"k": "hung", "id": id})
 				}
 			}
+		case "poke":
+			w.poke()
+		case "sleep":
+			time.Sleep(time.Duration(s.N) * time.Millisecond)
 		case "quiesce":
 			time.Sleep(time.Duration(10) * time.Millisecond)
 			w.add(ev{"k": "quiesce"})
